@@ -298,3 +298,132 @@ func VerifH_MVCCRangeReads() {
 	verifrt.Assert(same, "validation passed: the scanned entries are the same at commit time (no phantom, no lost or changed entry)")
 	verifrt.Reach("validated")
 }
+
+// verifOwnAwareReader is verifModelReader for the transaction's own snapshot: keys the transaction
+// has written itself show up as own writes (version 0), whether or not they exist in the index.
+type verifOwnAwareReader struct {
+	verifModelReader
+	own *byte // key written by the transaction (0: none)
+}
+
+func (r *verifOwnAwareReader) Read(ctx context.Context) ([]byte, ValueRef, error) {
+	for r.pos < len(r.m) {
+		e := r.m[r.pos]
+		r.pos++
+		if *r.own != 0 && e.key == *r.own {
+			return []byte{e.key}, &ongoingValRef{}, nil
+		}
+		if e.oldTx == 0 {
+			continue
+		}
+		ref, _ := verifVersionRef(e.oldTx, e.oldKind, nil)
+		return []byte{e.key}, ref, nil
+	}
+	return nil, nil, ErrNoMoreEntries
+}
+
+// VerifH_MVCCRangeReadsReset: a scan that is reset and repeated, with an own write in between.
+// Pass 1 reads r1 entries; the transaction then (symbolically) writes one of the keys itself;
+// the reader is Reset; pass 2 reads r2 entries (the own write now shows as such). The index
+// then advances arbitrarily. The real checkPreconditions passes iff BOTH recorded passes, minus
+// the transaction's own writes, are still what the commit-time state gives: a version the first
+// pass saw stays validated even though the second pass saw the key only as an own write.
+func VerifH_MVCCRangeReadsReset() {
+	r1, r2 := verifrt.Param("r1"), verifrt.Param("r2")
+	const nkeys = 3
+	oldTs := verifrt.U64("oldTs")
+	verifrt.Assume(oldTs >= 1 && oldTs <= 4)
+	m := make([]verifKeyState, nkeys)
+	for i := range m {
+		m[i].key = byte(i + 1)
+		m[i].oldTx = verifrt.U64("oldTx")
+		verifrt.Assume(m[i].oldTx <= oldTs)
+		m[i].newTx = m[i].oldTx
+		if verifrt.Bool("touched") {
+			m[i].newTx = verifrt.U64("newTx")
+			verifrt.Assume(m[i].newTx > oldTs && m[i].newTx <= oldTs+2)
+		}
+	}
+	var own byte
+	oldSnap, newSnap := &Snapshot{}, &Snapshot{}
+	verifrt.Stub("(*embedded/store.OngoingTx).snap", func(tx *OngoingTx, key []byte) (*Snapshot, error) {
+		if len(tx.snapshots) == 0 {
+			tx.snapshots = append(tx.snapshots, oldSnap)
+		}
+		return oldSnap, nil
+	})
+	verifrt.Stub("(*embedded/store.ImmuStore).syncSnapshot", func(s *ImmuStore, prefix []byte) (*Snapshot, error) { return newSnap, nil })
+	verifrt.Stub("(*embedded/store.Snapshot).Ts", func(s *Snapshot) uint64 { return oldTs })
+	verifrt.Stub("(*embedded/store.Snapshot).Close", func(s *Snapshot) error { return nil })
+	verifrt.Stub("(*embedded/store.Snapshot).NewKeyReader", func(s *Snapshot, spec KeyReaderSpec) (KeyReader, error) {
+		if s == oldSnap {
+			return &verifOwnAwareReader{verifModelReader: verifModelReader{m: m, old: true}, own: &own}, nil
+		}
+		return &verifModelReader{m: m}, nil
+	})
+	st := &ImmuStore{inmemPrecommittedTxID: oldTs + 2, mvccReadSetLimit: 100, maxKeyLen: 8, maxValueLen: 8, maxTxEntries: 8}
+	tx := &OngoingTx{st: st, mode: ReadWriteTx, mvccReadSet: &mvccReadSet{}, entriesByKey: make(map[[32]byte]int), transientEntries: make(map[int]*EntrySpec), ts: verifNow()}
+	kr, err := tx.NewKeyReader(KeyReaderSpec{})
+	verifrt.Assert(err == nil, "reader over the transaction's snapshot")
+	for r := 0; r < r1; r++ {
+		if _, _, err := kr.Read(context.Background()); err != nil {
+			verifrt.Assume(errors.Is(err, ErrNoMoreEntries))
+			break
+		}
+	}
+	w := verifrt.Byte("ownWrite")
+	verifrt.Assume(w <= nkeys)
+	if w != 0 {
+		verifrt.Assert(tx.Set([]byte{w}, nil, []byte{7}) == nil, "own write")
+		own = w
+	}
+	verifrt.Assert(kr.Reset() == nil, "reader reset")
+	for r := 0; r < r2; r++ {
+		if _, _, err := kr.Read(context.Background()); err != nil {
+			verifrt.Assume(errors.Is(err, ErrNoMoreEntries))
+			break
+		}
+	}
+	verifrt.Assert(len(tx.mvccReadSet.expectedReaders) == 1 && len(tx.mvccReadSet.expectedReaders[0].expectedReads) == 2, "two passes recorded")
+	// a recorded pass is still valid iff its entries other than own writes are, in order, the
+	// entries of the commit-time state other than the key the transaction wrote itself
+	stillValid := func(rec []expectedRead, ownKey byte) bool {
+		idx := 0
+		next := func() (byte, uint64, bool) {
+			for idx < nkeys {
+				e := m[idx]
+				idx++
+				if e.newTx == 0 || e.key == ownKey {
+					continue
+				}
+				return e.key, e.newTx, true
+			}
+			return 0, 0, false
+		}
+		for _, r := range rec {
+			if r.expectedNoMoreEntries {
+				_, _, more := next()
+				return !more
+			}
+			if r.expectedTx == 0 {
+				continue
+			}
+			k, t, ok := next()
+			if !ok || len(r.expectedKey) != 1 || k != r.expectedKey[0] || t != r.expectedTx {
+				return false
+			}
+		}
+		return true
+	}
+	passes := tx.mvccReadSet.expectedReaders[0].expectedReads
+	same := stillValid(passes[0], 0) && stillValid(passes[1], own)
+	err = tx.checkPreconditions(context.Background(), st)
+	if err != nil {
+		verifrt.Assert(errors.Is(err, ErrTxReadConflict), "only read conflicts are reported")
+		verifrt.Assert(!same, "no spurious conflict when both passes are still valid")
+		verifrt.Reach("conflict")
+		return
+	}
+	verifrt.Assert(same, "validation passed: every pass is still valid at commit time")
+	verifrt.Reach("validated")
+}
